@@ -94,6 +94,13 @@ def seed_global(seed):
     torch.manual_seed() also walks the CUDA/XPU/MTIA lazy-init queues and formats a
     stack trace for each (1.3 ms per call here); the CPU generator is all we need."""
     boot().default_generator.manual_seed(int(seed) & 0x7FFFFFFFFFFFFFFF)
+    # a library may equally draw constructor-time randomness from numpy's or Python's global generators
+    import random as _random
+
+    import numpy as _np
+
+    _np.random.seed(int(seed) % (2 ** 32))
+    _random.seed(int(seed))
 
 
 def clip_grads(params, max_norm):
